@@ -14,6 +14,7 @@ EXPLANATION = (
     "loops, each potential panic site (unwrap/expect/panic, indexing, slice copies, bounds / division asserts) is discharged by a "
     "local pattern (constant index into a fixed array; enumerate index over an equally long array; copy after a dominating length "
     "equality) — a str range index on a peer-supplied id is not dischargeable."
+    ' (5) ALLOC-PEER / peer-count — no allocation in the inbound-reachable set (now including DhtStreamHandler::handle_stream and DhtProtocolHandler::handle_message) is sized by a field of a decoded message, and every peer-supplied find-node count is capped wherever it reaches the routing table.'
 )
 NOT_DECIDED = "allocation inside postcard/serde for length-prefixed fields; the 16 MiB transport frame bound; debug-build arithmetic overflow asserts"
 ASSUMPTIONS = ["postcard::from_bytes returns Err (never panics) on malformed input", "tracing macros evaluate their arguments when a subscriber enables the level"]
